@@ -28,17 +28,19 @@ package innerring
 //@   callee (*innerring.Server).InnerRingIndex
 //@   defines irIndex() == result
 
-//@ callrule alphabet_authority in github.com/nspcc-dev/neofs-node/pkg/innerring*::*, !github.com/nspcc-dev/neofs-node/pkg/innerring::(*Server).voteForFSChainValidator
+//@ callrule alphabet_authority in github.com/nspcc-dev/neofs-node/pkg/innerring*::*
 //@   property C35
 //@   callee *).Invoke, *).NotaryInvoke, *).NotarySignAndInvokeTX, *).TransferGas, *).UpdateNeoFSAlphabetList, *).UpdateNotaryList, *).AlphabetUpdate, *).Cheque, *).Mint, *).Burn, (*balance.Client).Lock, *).NewEpoch, *).SetConfig, *).UpdateContainerPlacement, *).SettleContainerPayment, *).RunAlphabetNotaryScript
 //@   requires [alphabet_member] isAlpha()
 
-// voting: the node derives its alphabet membership from its inner ring index (the
-// alphabet is the prefix of the inner ring list): 0 <= index < number of alphabet contracts
-//@ callrule vote_only_in_alphabet_range in (*Server).voteForFSChainValidator
+// voting (at start-up, and when the Alphabet list changes): like every other Alphabet action it
+// needs the node's ALPHABET index - its position in the committee. The inner ring list is another
+// sorted list: a position in it below the number of Alphabet contracts says nothing about
+// membership in the committee.
+//@ callrule vote_only_with_an_alphabet_index_in_range in (*Server).voteForFSChainValidator
 //@   property C35
 //@   callee *).NotaryInvoke
-//@   requires [index_in_alphabet_range] 0 <= irIndex() && irIndex() < len(s.contracts.alphabet)
+//@   requires [alphabet_index_within_the_alphabet_contracts] 0 <= index && index < len(s.contracts.alphabet)
 
 //@ func (*Server).voteForFSChainValidator
 //@   property C35
